@@ -12,7 +12,8 @@ RULE = (
     "(autobegun roots included)}: all histories of length <= 3 (handle indices <= 2), the histories of "
     "length 4 (quick: a seeded sample of 300; thorough: all of length 4-5) over a savepoint-centred "
     "sub-alphabet, plus random histories (quick <= 9 ops, thorough <= 25 ops) from "
-    "three generators (uniform misuse, reference-guided nesting, with-statement programs), run on "
+    "four generators (uniform misuse, reference-guided nesting, with-statement programs, out-of-order "
+    "savepoint ends with rows at every level followed by the outer commit), run on "
     "real SQLite (sqlite3 autocommit=False) and observed after EVERY operation: exception class, "
     "commands that reached the DBAPI connection, warnings, in_transaction/in_nested_transaction, "
     "get_transaction/get_nested_transaction, is_active of every handle, rows visible to a second "
@@ -136,8 +137,10 @@ class Ref:
     def ctx_bad(self):
         return bool(self.ctx) and not self.live(self.ctx[0])
 
+    ignore_ctx = False  # oracle-follow only (a stale savepoint handle keeps its with-block "alive")
+
     def blocked(self):
-        return self.closed or self.ctx_bad()
+        return self.closed or (self.ctx_bad() and not self.ignore_ctx)
 
     def _open(self, isroot):
         self.stack.insert(0, [len(self.kinds), list(self.cur)])
@@ -175,6 +178,12 @@ class Ref:
         else:
             self.stack = fr
             self.cur = list(snap)
+
+    def end_keeping_work(self, k):
+        """oracle-follow only: the frames from k upwards are closed, the work stays"""
+        fr, _ = self._below(k)
+        if self.live(k):
+            self.stack = fr
 
     # guard clauses (None = inside the guarded region, else the name of the excluded region)
     def gstep(self, op):
@@ -437,6 +446,54 @@ def _rand_with(rng, budget, misuse):
     return ops[: budget + 4]
 
 
+def _rand_out_of_order(rng, maxlen):
+    """savepoint stacks with rows at every level, an out-of-order end of a non-innermost handle
+    (directly or by leaving its with-block), some follow-up work, then the outer commit"""
+    r = Ref()
+    ops = []
+    v = [1]
+
+    def emit(op):
+        ops.append(op)
+        r.step(op)
+
+    def ins():
+        emit([INS, v[0]])
+        v[0] += 1
+
+    if rng.random() < 0.3:
+        emit([BEGIN])
+    if rng.random() < 0.7:
+        ins()
+    entered = []
+    for _ in range(rng.randint(2, 3)):
+        emit([NESTED])
+        k = len(r.kinds) - 1
+        if rng.random() < 0.3:
+            emit([HENTER, k])
+            entered.append(k)
+        if rng.random() < 0.8:
+            ins()
+    nested = [h for h, _ in r.stack][:-1]
+    victim = rng.choice(nested[1:]) if len(nested) > 1 else nested[0]
+    if victim in entered and entered[-1] == victim and rng.random() < 0.7:
+        emit([HEXIT, victim, rng.randrange(2)])
+    else:
+        emit([rng.choice([HROLLBACK, HROLLBACK, HCLOSE, HCOMMIT]), victim])
+    for _ in range(rng.randint(0, max(0, maxlen - len(ops) - 1))):
+        x = rng.random()
+        if x < 0.4:
+            ins()
+        elif x < 0.55:
+            emit([NESTED])
+        elif x < 0.9:
+            emit([rng.choice([HROLLBACK, HCLOSE, HCOMMIT]), rng.randrange(len(r.kinds))])
+        else:
+            break
+    emit([CCOMMIT] if rng.random() < 0.7 else [HCOMMIT, 0])
+    return ops
+
+
 def _db_scripts(rng, tier):
     alpha = [[0], [1, 1], [1, 2], [2, 1], [2, 2], [3, 1], [3, 2], [4], [5], [6, 0]]
     out = []
@@ -477,6 +534,7 @@ def gen_cases(rng, tier):
         hist.append((_rand_guided(rng, rng.randint(4, maxlen), True), "random-guided"))
         hist.append((_rand_guided(rng, rng.randint(4, maxlen), False), "random-wellformed"))
         hist.append((_rand_with(rng, rng.randint(4, maxlen), rng.random() < 0.5), "random-with"))
+        hist.append((_rand_out_of_order(rng, min(maxlen, 12)), "random-out-of-order"))
     cases = [{"in": [0, h], "kind": k} for h, k in hist]
     # the oracle's reference model against the Coq reference model (no database involved)
     step = 1 if thorough else 4
@@ -732,58 +790,125 @@ REGIONS = {
 }
 
 
-def _first_divergence(ops, obs):
-    """(step index, message, regions entered so far) or None"""
+def _judge(ops, obs):
+    """Judges one history against the reference model, clause by clause.
+
+    Returns (unexplained, explained): the first deviation no known finding accounts for (str or
+    None) and the first deviation that IS the failure a known finding describes ((region, str) or
+    None).  The reference model *follows* the implementation through the known failures (an
+    operation the implementation refused is not performed; savepoints silently cancelled by finding
+    (b) are merged into the enclosing frame), so that the data / in_transaction / ended-commit
+    clauses keep being judged inside the defective regions, where the unchanged implementation
+    satisfies them.  What a known finding may explain:
+      a  (after an out-of-order savepoint end, until the root transaction ends) a stale inner
+         savepoint is still installed: in_nested_transaction() differs, operations are refused
+         with OperationalError (ROLLBACK TO / RELEASE of a savepoint the database no longer has) or
+         PendingRollbackError (stale inactive savepoint still installed), and begin/begin_nested/
+         execute are performed inside the with-block of a stale handle (its transaction has ended
+         for the reference model, which refuses them);
+      b  at rollback()/close()/__exit__ of an ended root handle: the live savepoints of the current
+         transaction are cancelled (in_nested_transaction() turns False);
+      c  at commit/rollback/close of the innermost savepoint inside a with-block whose transaction
+         has ended: InvalidRequestError although the handle is ended (work kept); afterwards
+         PendingRollbackError refusals while the inactive savepoint is still installed.
+    Never explained: what another connection sees, in_transaction(), commit() on an ended handle
+    not raising, handle numbering."""
+    import copy
+
     r = Ref()
-    regions = []
+    open_regions = []
+    unexplained = None
+    explained = None
+
+    def note(region, msg):
+        nonlocal explained
+        if explained is None:
+            explained = (region, msg)
+
     for i, (op, o) in enumerate(zip(ops, obs)):
         if op[0] >= HCOMMIT and op[1] >= len(r.kinds):
             if o != [9]:
-                return i, "handle numbering differs from the reference model", regions
+                return "step %d: handle numbering differs from the reference model" % i, explained
             continue
         if o == [9]:
-            return i, "handle numbering differs from the reference model", regions
+            return "step %d: handle numbering differs from the reference model" % i, explained
         reg = r.gstep(op)
         if reg == "d":
-            return None  # with-block protocol not used as the with statement uses it: not judged
-        if reg:
-            regions.append(reg)
-        ended_commit = op[0] == HCOMMIT and not r.live(op[1])
-        raised = r.step(op)
+            break  # with-block protocol not used as the with statement uses it: not judged further
         code, cmds, warns, in_t, in_n, ri, ni, act, vis = o
         name = OPNAMES[op[0]] + ("(h%d)" % op[1] if op[0] >= HCOMMIT else "")
+        ended_commit = op[0] == HCOMMIT and not r.live(op[1])
+        proper = copy.deepcopy(r)
+        raised = proper.step(op)
+        if raised is True and code == 0 and "a" in open_regions and op[0] in (BEGIN, NESTED, INS) \
+                and r.ctx_bad() and not r.closed:
+            # the with-block on top belongs to a stale savepoint handle that is still active for the
+            # implementation: the operation is performed; the reference model follows
+            follow = copy.deepcopy(r)
+            follow.ignore_ctx = True
+            if follow.step(op) is False:
+                follow.ignore_ctx = False
+                note("a", "step %d %s performed inside the with-block of a stale savepoint handle" % (i, name))
+                proper, raised = follow, False
+        if raised is False and code != 0:
+            msg = "step %d %s raised (code %d) although the reference model performs it" % (i, name, code)
+            if reg in ("a", "c") and code == 1 and r.ctx_bad():
+                note("c", msg)
+                r.end_keeping_work(op[1])
+                if "c" not in open_regions:
+                    open_regions.append("c")
+            elif code in (2, 4) and open_regions:
+                note(open_regions[0], msg)  # refused: the reference model does not perform it either
+            else:
+                return msg, explained
+        else:
+            r = proper
+            if reg == "a" and "a" not in open_regions:
+                open_regions.append("a")
+            if reg == "b" and len(r.stack) > 1 and in_n == 0:
+                note("b", "after step %d %s in_nested_transaction() is False: the ended root handle cancelled "
+                          "the live savepoints of the current transaction" % (i, name))
+                r.stack = r.stack[-1:]  # follow: the savepoint frames are merged into the root frame
         if vis != [[v] for v in r.committed]:
-            return i, "after step %d %s another connection sees %s, the reference model says %s" % (
-                i, name, vis, r.committed), regions
+            return "after step %d %s another connection sees %s, the reference model says %s" % (
+                i, name, vis, r.committed), explained
         if ended_commit and code == 0:
-            return i, "step %d %s on an ended transaction did not raise" % (i, name), regions
-        if (not raised) and code != 0:
-            return i, "step %d %s raised (code %d) although the reference model performs it" % (i, name, code), regions
-        if [in_t, in_n] != [int(bool(r.stack)), int(len(r.stack) > 1)]:
-            return i, "after step %d %s in_transaction/in_nested_transaction = %s, reference model says %s" % (
-                i, name, [in_t, in_n], [int(bool(r.stack)), int(len(r.stack) > 1)]), regions
-    return None
+            return "step %d %s on an ended transaction did not raise" % (i, name), explained
+        if len(act) != len(r.kinds):
+            return "step %d %s: %d transaction objects exist, the reference model has %d" % (
+                i, name, len(act), len(r.kinds)), explained
+        if in_t != int(bool(r.stack)):
+            return "after step %d %s in_transaction() = %s, reference model says %s" % (
+                i, name, in_t, int(bool(r.stack))), explained
+        if in_n != int(len(r.stack) > 1):
+            msg = "after step %d %s in_nested_transaction() = %s, reference model says %s" % (
+                i, name, in_n, int(len(r.stack) > 1))
+            if open_regions:
+                note(open_regions[0], msg)
+            else:
+                return msg, explained
+        if not r.stack:
+            open_regions = []  # the root transaction ended: every savepoint object was cancelled
+    return None, explained
 
 
 def oracle(c, obs):
     tag, ops = c["in"]
     if tag != 0:
         return None
-    d = _first_divergence(ops, obs)
-    if d is None:
-        return None
-    i, msg, regions = d
-    if regions:
-        msg += " [after entering region %s]" % regions[0]
-    return msg
+    unexplained, explained = _judge(ops, obs)
+    if unexplained:
+        return unexplained
+    if explained:
+        return "%s [known region %s]" % (explained[1], explained[0])
+    return None
 
 
 def match_finding(c, what):
     tag, ops = c["in"]
-    if tag != 0 or "[after entering region " not in what:
+    if tag != 0 or not what.endswith("]") or " [known region " not in what:
         return None
-    reg = what.split("[after entering region ")[1][0]
-    return REGIONS.get(reg)
+    return REGIONS.get(what[-2])
 
 
 LEVEL_TEXT = (
